@@ -151,6 +151,12 @@ def _common(draw, analytic=False):
     amax = kmax * lam
     s_mean = math.sqrt(ss[0] * ss[1])
 
+    # hyper-parameter route: given at construction ("init"), as override_* arguments on an instance built without
+    # them ("override"), or as override_* arguments on an instance built with OTHER, non-zero values for the same
+    # keys ("decoy": the overrides must win, including overrides that are exactly 0.0)
+    route = draw(st.sampled_from(["init", "override", "decoy"]))
+    unit = {"C10": s_mean / amax, "C12": s_mean / amax, "C21": s_mean / amax**2, "C30": s_mean / amax**3}
+
     # aberrations: magnitudes chosen so that the geometric shift at the mask edge is up to ~3 scan pixels
     syms = []
     if draw(st.integers(0, 9)) < 7:
@@ -168,15 +174,28 @@ def _common(draw, analytic=False):
             syms.append(("C30", _sig(draw(st.integers(-300, 300)) / 100.0 * s_mean / amax**3)))
     if analytic and draw(st.integers(0, 6)) == 0:
         syms = []  # the zero-aberration clause
-    abers = []
+    if route == "decoy":
+        if not syms:
+            syms = [("C10", 0.0)]
+        elif draw(st.integers(0, 2)) == 0:  # one coefficient exactly 0.0 over a non-zero construction-time value
+            mags = [i for i, (k, _v) in enumerate(syms) if k in unit]
+            i = mags[draw(st.integers(0, len(mags) - 1))]
+            syms[i] = (syms[i][0], 0.0)
+    abers, decoy_abers = [], []
     for sym, val in syms:
+        dval = val + 0.7 if sym not in unit else _sig(draw(st.integers(50, 250)) / 100.0 * draw(st.sampled_from([1.0, -1.0])) * unit[sym])
         if sym in R.INV_ALIASES and draw(st.booleans()):
             sign = R.ALIASES[R.INV_ALIASES[sym]][1]
             abers.append([R.INV_ALIASES[sym], sign * val])
+            decoy_abers.append([R.INV_ALIASES[sym], sign * dval])
         else:
             abers.append([sym, val])
+            decoy_abers.append([sym, dval])
     if draw(st.booleans()):
         abers.reverse()
+    rot = draw(angles) if lattice else 0.0 if draw(st.integers(0, 4)) == 0 else draw(st.integers(-3141, 3141)) / 1000.0
+    if route == "decoy" and draw(st.booleans()):
+        rot = 0.0  # override_rotation_angle=0.0 exactly over a non-zero construction-time angle
 
     if draw(st.integers(0, 3)) == 0:
         kc = 3.0 * kmax  # every pixel well inside the aperture: all weights exactly 1
@@ -201,12 +220,14 @@ def _common(draw, analytic=False):
         scan_sampling=ss,
         stack={"seed": draw(st.integers(0, 10**6)), "eps": draw(st.sampled_from([0.1, 0.2, 0.5, 1.0]))},
         abers=abers,
-        rot=draw(angles) if lattice else 0.0 if draw(st.integers(0, 4)) == 0 else draw(st.integers(-3141, 3141)) / 1000.0,
+        rot=rot,
         lattice=lattice,
         cutoff=cutoff,
         sub=sub,
-        route=draw(st.sampled_from(["init", "override"])),
+        route=route,
     )
+    if route == "decoy":
+        case["decoy"] = {"rot": 1.3 if rot == 0.0 else -rot, "abers": decoy_abers}
     return case
 
 
@@ -222,17 +243,53 @@ def _batch_list(draw, nr):
     return sorted(b for b in must.union(extra) if b >= 1) + big
 
 
-@st.composite
-def _history_entry(draw, nr):
-    """An earlier reconstruct() call on the instance that is then re-used: other rotation angle (same aberrations,
-    3 in 4), any kernel, any batch size."""
-    drot = draw(st.integers(50, 3000)) / 1000.0 * draw(st.sampled_from([1.0, -1.0]))
-    return {
-        "kernel": draw(st.sampled_from(sorted(R.FAMILY))),
-        "drot": 0.0 if draw(st.integers(0, 5)) == 5 else drot,
-        "abers": draw(st.sampled_from(["same", "same", "same", "half"])),
-        "bs": draw(st.none() | st.integers(1, nr)),
-    }
+_ORDERS = [1, 2, 4, 6, 8, 16, 24]
+_MF_EPS = [0.01, 0.03, 0.5, 1.0]
+_CHANGES = ["order", "order", "order", "lowpass", "highpass", "up", "kernel", "abers", "rot", "rot0", "bs"]
+
+
+def _lowpass(draw, case):
+    # the first non-zero scan frequency is 2 qmax / n: keep the low-pass above it so that something survives
+    qmax = 0.5 / max(case["scan_sampling"])
+    return _sig(qmax * draw(st.integers(max(30, int(250 / min(case["scan"])) + 1), 125)) / 100.0, 4)
+
+
+def _highpass(draw, case):
+    qmax = 0.5 / max(case["scan_sampling"])
+    return _sig(qmax * draw(st.integers(5, 50)) / 100.0, 4)
+
+
+def _history_entry(draw, case, nr):
+    """An earlier reconstruct() call on the instance that is then re-used: the main call with ONE argument changed
+    (two, 1 in 4) -- what an incomplete cache key or stale per-instance state cannot survive."""
+    changes = {}
+    for _ in range(2 if draw(st.integers(0, 3)) == 3 else 1):
+        # arguments that only one kernel reads are changed when the main call uses that kernel
+        fam = R.FAMILY[case["kernel"]]
+        what = draw(st.sampled_from(_CHANGES + (["mf_eps"] * 4 if fam == "mf" else ["flip"] * 3 if fam == "prlx" else [])))
+        if what == "order":
+            changes["order"] = draw(st.sampled_from([o for o in _ORDERS if o != (case["order"] or 12)]))
+        elif what == "lowpass":
+            v = _lowpass(draw, case)
+            changes["q_lowpass"] = None if (case["q_lowpass"] is not None and (draw(st.booleans()) or v == case["q_lowpass"])) else v
+        elif what == "highpass":
+            v = _highpass(draw, case)
+            changes["q_highpass"] = None if (case["q_highpass"] is not None and (draw(st.booleans()) or v == case["q_highpass"])) else v
+        elif what == "up":
+            changes["up"] = draw(st.sampled_from([u for u in (1, 2, 3) if u != (case["up"] or 1)]))
+        elif what == "kernel":
+            changes["kernel"] = draw(st.sampled_from(sorted(R.FAMILY)))
+        elif what == "abers":
+            changes["abers"] = draw(st.sampled_from(["half", "zero"]))
+        elif what == "rot":
+            changes["rot"] = round(case["rot"] + draw(st.integers(50, 3000)) / 1000.0 * draw(st.sampled_from([1.0, -1.0])), 6)
+        elif what == "rot0":
+            changes["rot"] = 0.0 if case["rot"] != 0.0 else 1.0
+        elif what == "flip":
+            changes["flip"] = not case["flip"]
+        elif what == "mf_eps":
+            changes["mf_eps"] = draw(st.sampled_from([e for e in _MF_EPS if e != case["mf_eps"]]))
+    return {"set": changes, "bs": draw(st.none() | st.integers(1, nr))}
 
 
 @st.composite
@@ -240,7 +297,6 @@ def meta_cases(draw):
     case = draw(_common())
     nr = len(case["sub"]) if case["sub"] is not None else len(case["mask_px"])
     fam = draw(st.sampled_from(list(R.KERNELS)))
-    qmax = 0.5 / max(case["scan_sampling"])
     rngp = np.random.default_rng(draw(st.integers(0, 10**6)))
     na = draw(st.integers(1, nr - 1))
     case.update(
@@ -248,9 +304,10 @@ def meta_cases(draw):
         kernel=draw(st.sampled_from(R.KERNELS[fam])),
         kernel2=draw(st.sampled_from(R.KERNELS[fam])),
         up=draw(st.sampled_from([None, 1, 2, 2, 3, 3])),
-        # the first non-zero scan frequency is 2 qmax / n: keep the low-pass above it so that something survives
-        q_lowpass=_sig(qmax * draw(st.integers(max(30, int(250 / min(case["scan"])) + 1), 125)) / 100.0, 4) if draw(st.booleans()) else None,
-        q_highpass=_sig(qmax * draw(st.integers(5, 50)) / 100.0, 4) if draw(st.integers(0, 2)) == 0 else None,
+        q_lowpass=_lowpass(draw, case) if draw(st.booleans()) else None,
+        q_highpass=_highpass(draw, case) if draw(st.integers(0, 2)) == 0 else None,
+        order=draw(st.sampled_from([None, None, 2, 4, 8, 24])),  # butterworth_order (None: the default, 12)
+        mf_eps=draw(st.sampled_from([None, None, 0.03, 0.5])),  # matched_filter_norm_epsilon (None: default 0.1)
         flip=draw(st.booleans()),
         soft=draw(st.sampled_from([True, True, True, False])),
         batches=_batch_list(draw, nr),
@@ -261,8 +318,14 @@ def meta_cases(draw):
             "bs": draw(st.none() | st.integers(1, nr)),
         },
         part=sorted(int(v) for v in rngp.choice(nr, size=na, replace=False)),
-        history=draw(st.lists(_history_entry(nr), min_size=0, max_size=2)),
     )
+    case["history"] = [_history_entry(draw, case, nr) for _ in range(draw(st.sampled_from([0, 1, 1, 2, 2, 3])))]
+    # a changed butterworth_order only means something when a cut-off is set (and stays set)
+    if any("order" in h["set"] for h in case["history"]) and case["q_lowpass"] is None and case["q_highpass"] is None:
+        if draw(st.booleans()):
+            case["q_lowpass"] = _lowpass(draw, case)
+        else:
+            case["q_highpass"] = _highpass(draw, case)
     return case
 
 
@@ -317,7 +380,9 @@ class _Setup:
         msamp = self.rs if self.units == "A^-1" else [v * self.lam * 1e3 for v in self.rs]
         vd = Dataset3d.from_array(np.array(stack, dtype=np.float32), name="vbf", units=("index", "A", "A"), sampling=(1, self.ss[0], self.ss[1]))
         md = Dataset2d.from_array(mask.copy(), name="mask", units=(self.units, self.units), sampling=tuple(msamp))
-        init = route == "init"
+        init = route in ("init", "decoy")
+        if route == "decoy":
+            rot, abers = float(self.case["decoy"]["rot"]), [(k, float(v)) for k, v in self.case["decoy"]["abers"]]
         abers = {k: (v + perturb if _is_angle(k) else v * (1.0 + perturb)) for k, v in (self.abers if abers is None else abers)}
         rot = self.rot if rot is None else rot
         return DP.from_virtual_bfs(
@@ -343,9 +408,9 @@ class _Setup:
             flags[torch.tensor(sel, dtype=torch.long)] = True
             bfm = torch.zeros_like(inst)
             bfm[inst] = flags
-        if route == "override" or abers is not None:
+        if route in ("override", "decoy") or abers is not None:
             kw["override_aberration_coefs"] = dict(self.abers if abers is None else abers)
-        if route == "override" or rot is not None:
+        if route in ("override", "decoy") or rot is not None:
             kw["override_rotation_angle"] = self.rot if rot is None else rot
         dp.reconstruct(bf_mask=bfm, max_batch_size=bs, verbose=False, **kw)
         cs = dp.corrected_stack.detach().cpu().numpy().astype(np.float64)
@@ -385,6 +450,10 @@ class _Setup:
         ]
         if c.get("lattice"):
             out.append("lattice")
+        if self.route != "init" and self.rot == 0.0:
+            out.append("override_rotation_exactly_0" + ("_over_nonzero" if self.route == "decoy" else ""))
+        if self.route != "init" and any(v == 0.0 for k, v in self.abers if not _is_angle(k)):
+            out.append("override_coefficient_exactly_0" + ("_over_nonzero" if self.route == "decoy" else ""))
         if any(k in R.ALIASES for k, _ in self.abers):
             out.append("alias_keys")
         return out
@@ -428,6 +497,35 @@ def _cmp(ctx, case, key, got, want, scale, tol, msg, slack=0.0):
 # ------------------------------------------------------------------------------------------------
 # kind: meta
 # ------------------------------------------------------------------------------------------------
+def _call_kwargs(case, changes):
+    """reconstruct() keyword arguments of the main call of a meta case with `changes` applied (rotation and
+    aberrations are handled by _Setup.run).  butterworth_order / matched_filter_norm_epsilon are only passed when
+    given, so that the defaults are exercised too."""
+    g = dict(case)
+    g.update({k: v for k, v in changes.items() if k not in ("rot", "abers")})
+    kw = dict(
+        deconvolution_kernel=g["kernel"], upsampling_factor=g.get("up"), q_lowpass=g.get("q_lowpass"),
+        q_highpass=g.get("q_highpass"), parallax_flip_phase=bool(g.get("flip", True)),
+    )  # fmt: skip
+    if g.get("order") is not None:
+        kw["butterworth_order"] = int(g["order"])
+    if g.get("mf_eps") is not None:
+        kw["matched_filter_norm_epsilon"] = float(g["mf_eps"])
+    return kw
+
+
+def _new_history(case, h):
+    """History entries of cases recorded before the one-argument-at-a-time format."""
+    if "set" in h:
+        return h
+    ch = {"kernel": h["kernel"]}
+    if h.get("drot"):
+        ch["rot"] = float(case["rot"]) + float(h["drot"])
+    if h.get("abers", "same") != "same":
+        ch["abers"] = h["abers"]
+    return {"set": ch, "bs": h.get("bs")}
+
+
 def _check_meta(ctx, case):
     q = _q()
     S = _Setup(case)
@@ -435,10 +533,8 @@ def _check_meta(ctx, case):
     if R.FAMILY[case["kernel2"]] != fam:
         raise core.HarnessError("kernel and kernel2 must name the same kernel")
     up = case.get("up")
-    kw = dict(
-        upsampling_factor=up, q_lowpass=case.get("q_lowpass"), q_highpass=case.get("q_highpass"),
-        parallax_flip_phase=bool(case.get("flip", True)),
-    )  # fmt: skip
+    kw = _call_kwargs(case, {})
+    kw.pop("deconvolution_kernel")
     soft = bool(case.get("soft", True))
     batches = sorted({int(b) for b in case["batches"] if int(b) >= 1})
     unequal = [b for b in batches if 1 < b < S.nr and S.nr % b]
@@ -454,10 +550,17 @@ def _check_meta(ctx, case):
         classes.append("flip" if kw["parallax_flip_phase"] else "no_flip")
     if fam in ("obf", "mf") and (kw["q_lowpass"] or kw["q_highpass"]):
         classes.append("two_pass+filter")
-    hist = case.get("history") or []
+    hist = [_new_history(case, h) for h in case.get("history") or []]
     classes.append("history:%d" % len(hist))
-    if any(h["drot"] != 0.0 and h["abers"] == "same" for h in hist):
-        classes.append("history:same_aberrations_other_rotation")
+    for h in hist:
+        names = sorted(h["set"])
+        classes.append("history_change:" + ("+".join(names) if names else "batch_size_only"))
+        if "order" in h["set"] and (kw["q_lowpass"] or kw["q_highpass"]) and "q_lowpass" not in h["set"] and "q_highpass" not in h["set"]:
+            classes.append("history:other_butterworth_order_same_cutoffs")
+        if h["set"].get("rot") == 0.0 or h["set"].get("abers") == "zero":
+            classes.append("history:override_exactly_0")
+    if case.get("order") is not None:
+        classes.append("butterworth_order:%d" % case["order"])
     if any(b > S.nr for b in batches):
         classes.append("batch_size>num_bf")
 
@@ -522,15 +625,20 @@ def _check_meta(ctx, case):
     # call history: earlier calls on that instance with another rotation angle / kernel / batch size (overrides).
     # Each must give what a fresh instance gives for the same call, and must leave nothing behind for the calls
     # that follow (all of which are compared with the fresh-instance result S0)
-    for h in case.get("history") or []:
-        hrot = S.rot + float(h["drot"])
-        habers = S.abers if h["abers"] == "same" else [(k, v if _is_angle(k) else 0.5 * v) for k, v in S.abers]
-        hkw = dict(kw, deconvolution_kernel=h["kernel"])
-        with ctx.sut(case, "reconstruct(%s, override_rotation_angle=%r) on the re-used and on a fresh instance" % (h["kernel"], hrot)):
-            Sh, Bh = S.run(q, dpb, S.sel, S.route, h.get("bs"), rot=hrot, abers=None if h["abers"] == "same" else habers, **hkw)
+    for h in hist:
+        ch = h["set"]
+        hkw = _call_kwargs(case, ch)
+        hrot = float(ch["rot"]) if "rot" in ch else None
+        habers = None
+        if "abers" in ch:
+            f = 0.5 if ch["abers"] == "half" else 0.0
+            habers = [(k, v if _is_angle(k) else f * v) for k, v in S.abers]
+        desc = "reconstruct(%s, max_batch_size=%r)" % (", ".join("%s=%r" % kv for kv in sorted(ch.items())) or "same arguments", h.get("bs"))
+        with ctx.sut(case, desc + " on the re-used and on a fresh instance"):
+            Sh, Bh = S.run(q, dpb, S.sel, S.route, h.get("bs"), rot=hrot, abers=habers, **hkw)
             Sf, Bf = S.run(q, S.build(q, X, "init", soft=soft, rot=hrot, abers=habers), sel0, "init", h.get("bs"), **hkw)
-        _finite(case, "reconstruction (%s)" % h["kernel"], Sf, Bf)
-        what = "reconstruct(%s, rotation %r, aberrations %s, max_batch_size=%r) on an instance with hyper-parameters given as overrides vs on a fresh instance" % (h["kernel"], hrot, h["abers"], h.get("bs"))
+        _finite(case, "reconstruction (%s)" % hkw["deconvolution_kernel"], Sf, Bf)
+        what = "%s [main call changed in: %s] on a used instance (hyper-parameters as overrides) vs on a fresh instance" % (desc, ", ".join(sorted(ch)) or "nothing")
         s_h = max(float(np.max(np.abs(Sf))), SCALE_FLOOR * natural)
         _cmp(ctx, case, "history", Sh, Sf, s_h, TOL_BATCH, "corrected_stack, " + what)
         _cmp(ctx, case, "history", Bh, Bf, float(np.max(np.abs(Bf))) + s_h, TOL_BATCH, "corrected_bf, " + what)
